@@ -157,6 +157,25 @@ PROPS["C08"] = {
     "thorough": {"scale": 10, "shards": 16, "timeout": 1500, "fuzz": [("FuzzParse", 60)]},
 }
 
+PROPS["C09"] = {
+    "pkg": "c09",
+    "technique": "model-based (stateful) property testing with rapid: generated configurations, Set/Get/Del/Clear/Stats histories and finite re-entrant OnDelete scripts, compared observation by observation with an abstract LRU list model",
+    "level_text": ("Generated histories against an abstract model (ordered list, byte total, hit/miss counters) that executes the same re-entrant script in its "
+                   "own eviction callback: every return value, every OnDelete(key,value) call in order, and Stats() after every action must match; the "
+                   "statement's bounds (Count <= MaxCount, Size <= MaxSize) are also asserted directly on every Stats snapshot; a panic is a violation. Two "
+                   "replacement policies are admissible (DESIGN.md C09); the history must match one of them throughout. Exploration: histories and "
+                   "configurations are sampled (biased towards small bounds so that evictions are frequent)."),
+    "level_note": "Trusted: the 100-line list model; re-entrant callbacks are finite scripts (an unbounded re-inserting callback makes room unattainable for any implementation).",
+    "rule": ("Config: 60% LRU with MaxCount 1-3 or MaxSize 2-12 and a (mostly re-entrant) OnDelete, 20% bounded without LRU, 20% anything incl. all-zero; "
+             "keys from {a,b,c,d,e,ab,abc}, values of 0-6 bytes; 1-40 (thorough 1-120) actions; re-entrant script of 0-10 operations, each OnDelete invocation "
+             "runs the next 0-2 of them. Non-trivial: history with at least one eviction, or a refused Set without LRU, or an operation executed inside "
+             "OnDelete; distinct = distinct (config, history, script)."),
+    "assumptions": ["whether the replaced entry counts towards the room needed is not fixed by the statement: the conservative (code) policy and replace-first are both admitted"],
+    "expect_classes": {"history:with-eviction": 0.3, "history:with-operation-inside-OnDelete": 0.15, "history:with-refusal-without-LRU": 0.03},
+    "quick": {"scale": 3, "shards": 1, "timeout": 300},
+    "thorough": {"scale": 6, "shards": 16, "timeout": 1500},
+}
+
 ALL_IDS = ["C%02d" % i for i in range(1, 21)]
 NOT_APPLICABLE = [
     {"property_id": pid, "reason": "check not built yet in this revision of the harness (work in progress; see DESIGN.md section 9)"}
